@@ -87,6 +87,10 @@ type simEvent struct {
 	emittedAt   time.Duration
 	emittedInc  int // watcher incarnation running when it was emitted (-1: none)
 	expectFwd   bool
+	attTok      string // attestations of a contract token: token id (hex) and the metadata claimed
+	attSym      string
+	attName     string
+	attDec      int
 }
 
 type simTx struct {
@@ -329,6 +333,9 @@ func (s *alphSim) makeEvent(kind, level, variant int, seq uint64) *simEvent {
 			}
 		}
 		e.payload = attestPayload(tok, dec, meta.symbol, meta.name)
+		if kind != 5 {
+			e.attTok, e.attSym, e.attName, e.attDec = tok.ToHex(), meta.symbol, meta.name, int(dec)
+		}
 		if kind == 2 && (variant/2)%3 == 1 {
 			// the attestation layout followed by trailing bytes: still an attestation (payload id 2)
 			// claiming metadata the token contract does not report
@@ -339,6 +346,26 @@ func (s *alphSim) makeEvent(kind, level, variant int, seq uint64) *simEvent {
 		e.attestOK = kind == 1 || (kind == 5 && meta.failMode == 13) // a slow answer is still a correct one
 		payloadV = bvec(e.payload)
 		senderB = e.sender[:]
+	case 8:
+		// attestation of the native token (the all-zero id is not a contract: its metadata is fixed by
+		// the protocol - 18 decimals, "ALPH", "Alephium"); odd variants claim something else
+		var tok Byte32
+		dec, sym, name := byte(18), "ALPH", "Alephium"
+		if variant%2 == 1 {
+			switch (variant / 2) % 3 {
+			case 0:
+				dec = 8
+			case 1:
+				sym = "ALPHX"
+			default:
+				name = "Alephium Token"
+			}
+			s.stats.Fault("native-token-attestation-with-wrong-metadata")
+		}
+		e.payload = attestPayload(tok, dec, sym, name)
+		e.isAttest, e.isTransfer = true, false
+		e.attestOK = variant%2 == 0
+		payloadV = bvec(e.payload)
 	case 3:
 		e.sender = foreignID
 		senderB = e.sender[:]
@@ -1201,7 +1228,7 @@ func (s *alphSim) runStep(st simkit.Step) {
 		s.mu.Unlock()
 	case "ev":
 		s.markLiveIfPolling()
-		s.emit(int(st.A)%8, int(st.B)%256, int(st.C), int(st.D)%4)
+		s.emit(int(st.A)%9, int(st.B)%256, int(st.C), int(st.D)%4)
 	case "adv":
 		d := time.Duration(st.A) * time.Millisecond
 		if d <= 0 {
@@ -1227,6 +1254,28 @@ func (s *alphSim) runStep(st simkit.Step) {
 		s.mu.Unlock()
 	case "reobs":
 		s.reobserve(st)
+	case "tokmut":
+		// the token contract reports other metadata from now on (an upgradable token, or a mutable
+		// field): attestations are judged against what the contract reports at that moment
+		s.mu.Lock()
+		tokHex := mk32(0x50, 0).ToHex()
+		m := s.tokens[tokHex]
+		nm := &tokenMeta{symbol: fmt.Sprintf("TK%d", st.A%7), name: m.name + "+", decimals: 6 + int(st.A%3)}
+		s.tokens[tokHex] = nm
+		for _, le := range s.govLog {
+			e := le.ev
+			if e.attTok != tokHex {
+				continue
+			}
+			// the watcher may look the token up at any moment between seeing the event and handing it
+			// over (the statement's quantifier does not make metadata change over time, so no moment is
+			// prescribed): an attestation is acceptable if it equalled what the contract reported at
+			// some moment of its life, and it is only owed if it did so all the time
+			e.attestOK = e.attestOK || (e.attSym == nm.symbol && e.attName == nm.name && e.attDec == nm.decimals && len(e.payload) == 100)
+			e.expectFwd = false
+		}
+		s.stats.Fault("token-metadata-changed")
+		s.mu.Unlock()
 	}
 }
 
@@ -1417,9 +1466,9 @@ func (alphHarness) Gen(seed uint64, prop, tier string) *simkit.Program {
 	}
 	sec := int64(1000)
 	n := 4 + r.Intn(14)
-	kindW := []int{8, 3, 2, 3, 4, 3, 2, 0}
+	kindW := []int{8, 3, 2, 3, 4, 3, 2, 0, 1}
 	if prop == "C08" {
-		kindW = []int{8, 3, 3, 4, 2, 1, 1, 4}
+		kindW = []int{8, 3, 3, 4, 2, 1, 1, 4, 2}
 	}
 	for i := 0; i < n; i++ {
 		switch r.Pick(8, 4, 5, 2, 2, 2, 3) {
@@ -1431,6 +1480,12 @@ func (alphHarness) Gen(seed uint64, prop, tier string) *simkit.Program {
 			add("ev", int64(r.Pick(kindW...)), level(), int64(r.Intn(48)), more)
 		case 1:
 			add("blk", int64(r.Range(1, 12)), 0, 0, 0)
+			if r.P(0.12) {
+				add("ev", 1, level(), int64(r.Intn(48)), 0)
+				add("adv", 2*p.Cfg["poll_ms"], 0, 0, 0)
+				add("tokmut", int64(r.Intn(21)), 0, 0, 0)
+				add("ev", int64(1+r.Intn(2)), level(), int64(r.Intn(48)), 0)
+			}
 		case 2:
 			switch r.Pick(4, 3, 1) {
 			case 0:
